@@ -1,0 +1,65 @@
+"""
+Purpose: Optional verification taps for the orchestrator (disabled unless THAILINT_VERIF is set)
+
+Scope: Observation only; emits JSON lines describing orchestrator events and swallowed failures
+
+Overview: When the environment variable THAILINT_VERIF is set, `fail()` appends one JSON line per
+    swallowed rule/worker exception to the file named by THAILINT_VERIF_FAILLOG and `emit()` appends
+    one JSON line per orchestrator event to the file named by THAILINT_VERIF_TRACE. Each line carries
+    the process id and a per-process sequence number. With the variable unset both functions return
+    immediately and have no effect on behaviour.
+
+Dependencies: json, os
+
+Exports: emit, fail
+
+Interfaces: emit(event: str, **fields), fail(where: str, rule: str, file: object, exc: BaseException)
+
+Implementation: O_APPEND single write per record so that concurrent processes never interleave
+"""
+
+import json
+import os
+
+_GUARD = "THAILINT_VERIF"
+_state = {"seq": 0}
+
+
+def _append(env_name: str, record: dict) -> None:
+    path = os.environ.get(env_name)
+    if not path:
+        return
+    _state["seq"] += 1
+    record = {"pid": os.getpid(), "seq": _state["seq"], **record}
+    data = (json.dumps(record, default=str) + "\n").encode("utf-8", "backslashreplace")
+    try:
+        fd = os.open(path, os.O_WRONLY | os.O_APPEND | os.O_CREAT, 0o644)
+        try:
+            os.write(fd, data)
+        finally:
+            os.close(fd)
+    except OSError:
+        pass
+
+
+def emit(event: str, **fields: object) -> None:
+    """Append an orchestrator event to $THAILINT_VERIF_TRACE (no-op unless THAILINT_VERIF is set)."""
+    if not os.environ.get(_GUARD):
+        return
+    _append("THAILINT_VERIF_TRACE", {"ev": event, **fields})
+
+
+def fail(where: str, rule: str, file: object, exc: BaseException) -> None:
+    """Append a swallowed failure to $THAILINT_VERIF_FAILLOG (no-op unless THAILINT_VERIF is set)."""
+    if not os.environ.get(_GUARD):
+        return
+    _append(
+        "THAILINT_VERIF_FAILLOG",
+        {
+            "where": where,
+            "rule": rule,
+            "file": str(file),
+            "exc_type": type(exc).__name__,
+            "exc_msg": str(exc)[:500],
+        },
+    )
